@@ -1,6 +1,6 @@
 (* C12 property theorems: ONLY statements closed by `exact`, each followed by Print Assumptions. *)
-From Coq Require Import List Ascii ZArith NArith Bool.
-From DuneV Require Import C12_Model C12_Spec C12_Proofs C12_Proofs_Int C12_Proofs_Tree C12_Proofs_Lex C12_Proofs_Frame C12_Proofs_Opt C12_Proofs_Order C12_Proofs_Api.
+From Coq Require Import List Ascii ZArith NArith Bool Sorted.
+From DuneV Require Import Params_gen C12_Model C12_Spec C12_Proofs C12_Proofs_Int C12_Proofs_Tree C12_Proofs_Lex C12_Proofs_Frame C12_Proofs_Opt C12_Proofs_Order C12_Proofs_Api C12_Proofs_Seq C12_Proofs_Report C12_Proofs_Dbl C12_Proofs_Hash.
 Import ListNotations.
 Local Open Scope char_scope.
 
@@ -56,12 +56,20 @@ Theorem C12_range_exact_refuted :
 Proof. exact c12_range_exact_asis_refuted. Qed.
 Print Assumptions C12_range_exact_refuted.
 
-(* what survives for the present code: the accepted text starts with n well-formed items *)
-Theorem C12_range_items_partial : forall lo hi n s vs,
+(* C12_range_items (was _partial), full: EXACTLY what the probe as found (before commit 3e08a7e) accepted -- for any
+   element extraction: n items and a rest on which one more extraction fails at the end of the text ... *)
+Theorem C12_range_asfound_exact : forall A (ex : c12_str -> option A * c12_str * bool) n s vs,
+  c12_parse_range false ex n s = Some vs <->
+  exists rest, c12_range_items ex n s = Some (vs, rest) /\ fst (fst (ex rest)) = None /\ snd (ex rest) = true.
+Proof. exact c12_range_asfound_exact. Qed.
+Print Assumptions C12_range_asfound_exact.
+(* ... and for integers the shape of that silently dropped rest: blanks followed by nothing, a lone sign, or an
+   integer text whose value is not representable *)
+Theorem C12_range_items : forall lo hi n s vs,
   c12_parse_range false (c12_extract_int true lo hi) n s = Some vs ->
-  exists rest, c12_items_then lo hi n s vs rest.
-Proof. exact c12_range_asis_items. Qed.
-Print Assumptions C12_range_items_partial.
+  exists rest, c12_items_then lo hi n s vs rest /\ c12_dropped_tail lo hi rest.
+Proof. exact c12_range_asfound_shape. Qed.
+Print Assumptions C12_range_items.
 
 (* ---------------------------------------------------------------- the tree *)
 
@@ -285,3 +293,149 @@ Example C12_double_nonvacuous :
   c12_parse_scalar c12_extract_double ["."] = None /\
   c12_parse_range true c12_extract_double 2 ["."; "5"; " "; "2"; "."] = Some [(false, 5%Z, (-1)%Z); (false, 2%Z, 0%Z)].
 Proof. vm_compute. repeat split; reflexivity. Qed.
+
+(* ---------------------------------------------------------------- proof-deepening round *)
+
+(* get<unsigned T>: exactly  blank* [+-]? digit+ blank*  with magnitude <= max; "-m" is 2^w - m (library wrap-around) *)
+Theorem C12_uint_exact : forall lo hi s,
+  c12_parse_scalar (c12_extract_int false lo hi) s = c12_spec_uint hi s.
+Proof. exact c12_uint_exact. Qed.
+Print Assumptions C12_uint_exact.
+Example C12_uint_exact_nonvacuous :
+  c12_parse_scalar (c12_ity_extract C12UInt) ["-"; "1"] = Some 4294967295%Z /\
+  c12_parse_scalar (c12_ity_extract C12UInt) ["4";"2";"9";"4";"9";"6";"7";"2";"9";"6"] = None /\
+  c12_parse_scalar (c12_ity_extract C12UShort) [" "; "6";"5";"5";"3";"5"; " "] = Some 65535%Z.
+Proof. vm_compute. repeat split; reflexivity. Qed.
+
+(* get<std::string> is total *)
+Theorem C12_string_total : forall s, c12_parse_string s = c12_ltrim (c12_rtrim s).
+Proof. exact c12_string_total. Qed.
+Print Assumptions C12_string_total.
+
+(* readOptions for EVERY argument vector: "-k v" pairs found by the left-to-right scan c12_options_scan (the value is
+   the next argument whatever it looks like, other arguments are ignored), a final option without value and a
+   value/subtree clash are RangeErrors *)
+Theorem C12_options_all_argv : forall args pt, c12_read_options args pt = c12_spec_read_options args pt.
+Proof. exact c12_read_options_spec. Qed.
+Print Assumptions C12_options_all_argv.
+Example C12_options_all_argv_nonvacuous :
+  c12_options_scan [["x"]; ["-";"a"]; ["-";"b"]; ["-"]; ["y"]; ["-";"c"]] = ([(["a"], ["-";"b"])], true).
+Proof. vm_compute. reflexivity. Qed.
+
+(* overwrite flag over whole sources.  overwrite = false: a pre-existing entry q survives ANY source unchanged (all of
+   hasKey/hasSub/operator[] at q), provided no key of the source is a proper prefix or extension of q *)
+Theorem C12_overwrite_kept : forall kvs t seen t' q,
+  c12_store_all kvs t seen false = (t', C12Ok) ->
+  c12_has_key t q = Some true ->
+  (forall k v, In (k, v) kvs -> c12_path k = q \/ c12_unrel (c12_path k) q = true) ->
+  c12_obs t' q = c12_obs t q.
+Proof. exact c12_overwrite_false_keeps. Qed.
+Print Assumptions C12_overwrite_kept.
+(* overwrite = true: a pre-existing entry that the source assigns holds the written value afterwards *)
+Theorem C12_overwrite_replaced : forall l1 k v l2 t seen t',
+  c12_store_all (l1 ++ (k, v) :: l2) t seen true = (t', C12Ok) ->
+  c12_has_key t (c12_path k) = Some true ->
+  (forall k' v', In (k', v') (l1 ++ l2) -> c12_unrel (c12_path k') (c12_path k) = true) ->
+  c12_lookup t' (c12_path k) = Some v.
+Proof. exact c12_overwrite_true_replaces. Qed.
+Print Assumptions C12_overwrite_replaced.
+(* unrelated assignments never disturb an observation, any number of them, either mode *)
+Theorem C12_frame_source : forall kvs t seen ow t' q,
+  c12_store_all kvs t seen ow = (t', C12Ok) ->
+  (forall k v, In (k, v) kvs -> c12_unrel (c12_path k) q = true) ->
+  c12_obs t' q = c12_obs t q.
+Proof. exact c12_store_all_frame. Qed.
+Print Assumptions C12_frame_source.
+Example C12_overwrite_nonvacuous :
+  let t := fst (c12_set_all [(["a"], ["0"]); (["g";".";"b"], ["1"])] c12_empty) in
+  c12_lookup (fst (c12_store_all [(["c"], ["9"]); (["a"], ["7"])] t [] false)) [["a"]] = Some ["0"] /\
+  c12_lookup (fst (c12_store_all [(["c"], ["9"]); (["a"], ["7"])] t [] true)) [["a"]] = Some ["7"].
+Proof. vm_compute. split; reflexivity. Qed.
+
+(* [prefix] groups and dotted keys denote the same hierarchy: two dialect documents denoting the same
+   (full key, value) list are read to the same tree and status *)
+Theorem C12_group_equals_dotted : forall qhash ls1 ls2 pt ow,
+  forallb c12_sline_ok ls1 = true -> forallb c12_sline_ok ls2 = true ->
+  c12_sdoc_assigns ls1 [] = c12_sdoc_assigns ls2 [] ->
+  c12_ts (c12_parse_ini_lines qhash (flat_map c12_render_sline ls1) pt ow) =
+  c12_ts (c12_parse_ini_lines qhash (flat_map c12_render_sline ls2) pt ow).
+Proof. exact c12_group_equals_dotted. Qed.
+Print Assumptions C12_group_equals_dotted.
+
+(* report() read back by readINITree() into an empty tree: accepted, and every entry of the tree is there with
+   its value.  Hypotheses (both decidable): every printed line is in the printable fragment (c12_rline_ok: keys
+   non-empty, tight, without = # and not starting with [ ; header names without ] ; values without #), and the
+   tree is a hierarchy (its reported entries are pairwise unrelated paths: no key twice, no key both value and
+   subtree).
+   _partial: the second hypothesis is an invariant of every tree built through operator[] / the parsers from a
+   hierarchy, but it is not derived here from a structural well-formedness predicate of the tree; and the converse
+   (nothing is added, apart from the key order which report() sorts) is not proved. *)
+Theorem C12_report_roundtrip_partial : forall qhash t ow,
+  forallb c12_rline_ok (c12_report_rlines t []) = true ->
+  c12_hierarchy (map (fun kv : c12_str * c12_str => c12_path (fst kv)) (c12_rl_assigns (c12_report_rlines t []) [])) = true ->
+  let r := c12_parse_ini_lines qhash (c12_report_lines t []) c12_empty ow in
+  c12_ir_status r = C12Ok /\
+  forall p v, p <> [] -> forallb c12_seg_ok p = true -> c12_lookup t p = Some v -> c12_lookup (c12_ir_tree r) p = Some v.
+Proof. exact c12_report_roundtrip. Qed.
+Print Assumptions C12_report_roundtrip_partial.
+Example C12_report_roundtrip_nonvacuous :
+  let t := fst (c12_set_all [(["b"; "."; "y"], ["2"; " "]); (["a"], ["1"]); (["b"; "."; "x"; "."; "z"], [])] c12_empty) in
+  forallb c12_rline_ok (c12_report_rlines t []) = true /\
+  c12_hierarchy (map (fun kv : c12_str * c12_str => c12_path (fst kv)) (c12_rl_assigns (c12_report_rlines t []) [])) = true /\
+  c12_lookup (c12_ir_tree (c12_parse_ini_lines false (c12_report_lines t []) c12_empty true)) [["b"]; ["x"]; ["z"]] = Some [].
+Proof. vm_compute. repeat split; reflexivity. Qed.
+
+(* tie to the source text: the character sets and words of the model are re-read from the C++ files into
+   coq/Params_gen.v on every run; this theorem (and every theorem above, re-checked against the regenerated file)
+   fails if the source is edited to values the dialect is not written with *)
+Theorem C12_source_constants :
+  c12_param_comment = N_of_ascii "#" /\
+  c12_param_quotes = [N_of_ascii "'"; N_of_ascii """"] /\
+  c12_words c12_param_true_words = [["y"; "e"; "s"]; ["t"; "r"; "u"; "e"]] /\
+  c12_words c12_param_false_words = [["n"; "o"]; ["f"; "a"; "l"; "s"; "e"]] /\
+  c12_is_ws " " = true /\ c12_is_ws "009" = true /\
+  forallb (fun c => negb (c12_is_ws c)) ["#"; "="; "["; "]"; "."; "'"; """"; "-"; "+"; "0"; "a"] = true.
+Proof. exact c12_source_constants. Qed.
+Print Assumptions C12_source_constants.
+
+(* C12_double_exact (was C12_double_sound_partial): get<double> converts EXACTLY the texts  blank* literal blank*
+   (c12_double_literal: sign? I [. F] [e|E sign? X], I ++ F and X non-empty), to exactly the decimal the literal
+   denotes; everything else is a RangeError.  Rounding that decimal to binary64 (and overflow -> error) is strtod's:
+   checked on every run against a correctly rounding conversion, not proved. *)
+Theorem C12_double_exact : forall s d,
+  c12_parse_scalar c12_extract_double s = Some d <->
+  exists b lit b2, s = b ++ lit ++ b2 /\ forallb c12_is_space b = true /\ forallb c12_is_space b2 = true /\
+                   c12_double_literal lit d.
+Proof. exact c12_double_exact. Qed.
+Print Assumptions C12_double_exact.
+(* FieldVector<double,n> / array<double,n>: only n literals (optionally blank-preceded) followed by blanks convert.
+   _partial: soundness half; which texts with items glued together ("1.5.5") convert is left to the correspondence *)
+Theorem C12_range_sound_double_partial : forall n s vs,
+  c12_parse_range true c12_extract_double n s = Some vs ->
+  exists rest, c12_gitems c12_double_literal n s vs rest /\ forallb c12_is_space rest = true.
+Proof. exact c12_range_sound_double. Qed.
+Print Assumptions C12_range_sound_double_partial.
+
+(* no key is listed twice by getValueKeys / getSubKeys of any node (source read into the empty tree) *)
+Theorem C12_keys_unique : forall kvs ow t' pr,
+  c12_store_all kvs c12_empty [] ow = (t', C12Ok) -> NoDup (c12_vkeys t' pr) /\ NoDup (c12_skeys t' pr).
+Proof. exact c12_keys_unique. Qed.
+Print Assumptions C12_keys_unique.
+
+(* F-C12-3 repaired, for ALL lines: with fixes/C12-3.patch the line  b0 key b1 = b2 q l0 q b3 [# comment]  assigns
+   exactly l0 -- whatever l0 contains, '#' included, as long as it does not contain its own quote character *)
+Theorem C12_hash_in_quoted : forall fuel rest pt prefix seen ow ub b0 key b1 b2 q l0 b3 comment,
+  c12_blankb b0 = true -> c12_blankb b1 = true -> c12_blankb b2 = true -> c12_blankb b3 = true ->
+  c12_key_ok key = true -> c12_is_quote q = true -> c12_nochar q l0 = true -> c12_comment_ok comment = true ->
+  c12_ts (c12_ini_loop true (S fuel) ((b0 ++ key ++ b1 ++ "=" :: b2 ++ (q :: l0 ++ q :: b3) ++ comment) :: rest) pt prefix seen ow ub) =
+  match c12_store pt seen ow (prefix ++ key) l0 with
+  | inl (pt', seen') => c12_ts (c12_ini_loop true fuel rest pt' prefix seen' ow ub)
+  | inr e => e
+  end.
+Proof. exact c12_hash_in_quoted_step. Qed.
+Print Assumptions C12_hash_in_quoted.
+
+(* report() visits the values (and the subtrees) of a node in ascending byte-wise key order: the std::map order *)
+Theorem C12_report_sorted : forall A (l : list (c12_str * A)), Sorted c12_key_le (c12_sort l).
+Proof. exact c12_sort_sorted. Qed.
+Print Assumptions C12_report_sorted.
